@@ -734,6 +734,43 @@ def s14(ctx, rid):
         raise core.AnchorLost('try_run_fsync_task in process_msg: %d' % n)
 
 
+def s15(ctx, rid):
+    """`sync without further client action`: the dirty-byte level a write or delete reports to the storage (and on which the sync
+    request is decided) is read *after* the record was appended.  In a blob-level body that appends and reports, no
+    dirty_bytes() reading that reaches the result precedes the append - a stale level lets the operation that crosses the
+    limit pass without a sync request"""
+    prog = ctx.prog
+    L, E = prog.may_reach()
+    n = 0
+    for f in prog.fns.values():
+        if f.file != 'src/blob/core.rs' or not f.is_coroutine:
+            continue
+        reads = [c for c in f.calls if c.bb in f.reachable() and c.name == 'dirty_bytes']
+        if not reads:
+            continue
+        def appends(c):
+            if c.name == 'poll':
+                return False
+            for t in prog.resolve(c):
+                if t in prog.fns and any('write_append' in x for x in [t] + sorted(L.get(t, ()))):
+                    return True
+            return False
+        apps = [c for c in f.calls if c.bb in f.reachable() and appends(c)]
+        if not apps:
+            continue
+        for d in reads:
+            n += 1
+            key = 'dirty-level-read-after-append|%s' % prog.fns[f.id].root
+            carry = core.flows_forward(f, d.dest[0], transparent=core.fwd_transparent)
+            later = [a for a in apps if a.bb in f.reach_from(f.after(d.bb))]
+            if 0 in carry and later:
+                ctx.bad(rid, key, d.where(), 'the dirty-byte level that is reported with the result is read before the record is appended (`%s` follows): the operation that crosses max_dirty_bytes_before_sync reports the old level and no sync is requested' % later[0].name)
+            else:
+                ctx.ok(rid, key, d.where(), 'read after the append (or on a path without one)')
+    if n < 1:
+        raise core.AnchorLost('dirty_bytes readings in appending blob bodies: %d' % n)
+
+
 RULES = [
     Rule('C12.S1', 'every ok-return of the blob constructor is preceded by the header append and then a completed ok file sync', s1, 2),
     Rule('C12.S2', 'every index dump / index-file construction call is dominated by an ok sync of the blob file (in the function or in every caller)', s2, 3),
@@ -748,6 +785,7 @@ RULES = [
     Rule('C12.S11', 'the sync trigger is a function of the current dirty-byte level, the limit and the in-progress flag only (level-triggered)', s11, 3),
     Rule('C12.S12', 'the configured dirty-byte limit reaches the configuration unchanged for every value', s12, 3),
     Rule('C12.S13', 'posting the sync request after an append depends on the dirty-byte trigger alone', s13, 2),
+    Rule('C12.S15', 'the dirty-byte level reported by a write / delete is read after the append', s15, 1),
     Rule('C12.S14', 'the worker serves every sync request it receives (no debounce between the message arm and the task start)', s14, 1),
     Rule('C12.S8', 'every boolean in-progress / request-pending flag that was set is released on every exit (drop guard or explicit clear on all paths): the sync it guards is never suppressed for ever', s8, 1),
 ]
